@@ -249,36 +249,22 @@ def _split_flags(spec):
 
 def c17_classify(model, body, flags):
     """Finding id when the model/implementation line deviates from the specification line in the way
-    recorded for a known class the input belongs to (flags computed by the extracted predicates K1..K5)."""
+    recorded for a known class the input belongs to (flags computed by the extracted predicates K3, K4)."""
     if body.startswith("OK "):                                   # to_value
-        if model.startswith("ERR custom") and "K1" in flags:
-            return "C17-integer-syntax-not-64-bit"
         if "K4" in flags and (model.startswith("ERR malformed") or model.startswith("OK ")):
             return "C17-number-token-key"
         return None
     if body.startswith("WANT "):                                 # from_value / from_str
         if "K4" in flags and (model == "ERR" or model.startswith("OK ")):
             return "C17-number-token-key"
-        if "K5" in flags and (model == "ERR" or model.startswith("OK ")):
-            return "C17-text-front-end-float"
         nulls = model.split(" ").count("n") > body.split(" ").count("n")
         if "K3" in flags and model.startswith("OK ") and nulls:
             return "C17-overflow-to-null"
-        if "K2" in flags and model.startswith("OK ") and not nulls:
-            return "C17-lossy-above-19-digits"
     return None
 
 
 def c18_classify(model, body, flags):
-    if model == "PANIC":
-        return "C18-overflowing-magnitude" if ("K3" in flags and body == "NOPANIC") else None
-    if "PANIC" in model:
-        return None
-    if body.startswith("v=") and "K6" in flags:
-        return "C18-float-through-text"
-    if body.startswith("WANT ") and "K5" in flags:
-        return "C18-float-through-text"
-    return None
+    return None                          # no recorded finding: every deviation is a violation
 
 
 def _known(classify):
@@ -312,6 +298,29 @@ class _SpecMatch:
         return n >= 25
 
 
+def _oracle_consistent(case):
+    """W:/R: tokens record `bits -> printed spelling`; a genuine one reads back to those bits.  Used to keep the
+    shrinker from minimising the recorded dependency answers instead of the input."""
+    import struct
+    for t in case.split("| ", 1)[0].split(" ")[1:]:
+        if not t:
+            continue
+        parts = t.split(":")
+        if len(parts) != 3 or parts[0] not in ("W", "R"):
+            return False
+        try:
+            txt = "".join(chr(int(h, 16)) for h in parts[2].split(","))
+            if struct.unpack(">Q", struct.pack(">d", float(txt)))[0] != int(parts[1], 16):
+                return False
+        except (ValueError, OverflowError):
+            return False
+    return True
+
+
+def serde_differs(case, impl, model, spec):
+    return impl != model and _oracle_consistent(case)
+
+
 def serde_nontrivial(case, impl):
     # a number, or a non-empty container
     body = case.split("| ", 1)[-1]
@@ -319,12 +328,15 @@ def serde_nontrivial(case, impl):
 
 
 SERDE_TRUST = [
-    "dependencies modelled, not verified (arguments of the model, hypotheses of the theorems): json-number Number::as_f64_lossy "
-    "(lexical, lossy option) and NumberBuf::try_from(f64) (lexical write), serde_json's number parser (Number::from_str / the "
-    "streaming deserializer) and Number Display (ryu).  Each case line records what these answered for exactly the calls the "
-    "input causes (ORACLE tokens, produced by calling json-number / serde_json directly, never json-syntax); the model runs on "
-    "those answers, and the specification column is computed from the correctly rounded reference Spec/NumSpelling.dbl "
-    "(Flocq binary_round / SpecFloat division), so every hypothesis on the dependencies is re-validated on every explored case",
+    "decimal -> double conversions are correctly rounded: std's str::parse::<f64> (used by json-syntax for every number "
+    "that is not a 64-bit integer: de.rs visit_number, convert/serde_json.rs) and serde_json's streaming number parser built "
+    "with its float_roundtrip feature (harness/Cargo.toml; the text front end of C17) are modelled by the reference "
+    "Spec/NumSpelling.dbl (Flocq binary_round / SpecFloat division); a disagreement shows as implementation != model",
+    "float printers modelled, not verified (arguments of the model, hypotheses of the theorems): NumberBuf::try_from(f64) "
+    "(lexical write) and serde_json's Number Display (ryu).  Each case line records what these answered for exactly the "
+    "calls the input causes (ORACLE tokens, produced by calling json-number / serde_json directly, never json-syntax); the "
+    "model runs on those answers and the specification column re-reads the printed spelling with dbl, so the round-trip "
+    "hypothesis on the printers is re-validated on every explored case",
     "serde's visitor / SerializeMap call protocol as exercised by Value: the events are transcribed from ser.rs / de.rs / "
     "json-number serde.rs by hand; serde_json's streaming deserializer is modelled only in how it classifies numbers "
     "(tokenising, unescaping, its recursion limit of 128 are not modelled; generated nesting <= 8)",
@@ -339,6 +351,7 @@ PROPS["C17"] = {
     "nshards": {"quick": 16, "thorough": 16},
     "nontrivial": serde_nontrivial,
     "known": _known(c17_classify),
+    "differs": serde_differs,
     "spec_matches": _SpecMatch(c17_classify),
     "rule": "three routes per value: `ser` json_syntax::to_value(&v) (and to_value(&Object)), `de` json_syntax::from_value::<Value>(v), "
             "`txt` serde_json::from_str::<Value>(compact text of v).  Values: ~430 fixed number spellings bare and inside "
@@ -346,22 +359,24 @@ PROPS["C17"] = {
             "fractions of 1-40 digits, exponent forms e/E/+/-/leading zero, 17-40 significant digits, the double range ends, "
             "subnormal and half-subnormal boundaries, 309-digit integers around f64::MAX, absurd exponents); seeded spellings from "
             "12 classes (integers of 1-25 digits, neighbours of the 64-bit bounds, fractions, exponent shapes with exponents to "
-            "+-500, shortest spellings of random doubles in three notations, serde_json's exact range m<2^53 x 10^+-22, >19 digits, "
+            "+-500, shortest spellings of random doubles in three notations, m<2^53 x 10^+-22, >19 digits, "
             "the C09 decimal classes incl. exact midpoints); strings/keys from controls, quotes, backslashes, U+2028, U+D7FF, "
             "U+E000, U+FFFE, non-BMP, the private number token; the token as first / later / duplicated key with string, invalid, "
             "non-string values, nested; duplicate-carrying objects (nested, key pool around U+E000/U+10000); random nested values "
             "of depth <= 8 without and with duplicate keys over tame numbers, and of depth <= 6 over every number class. "
             "Observable: Ok(value) / error kind / PANIC.  Spec column: ser_spec v (first position, last value; -0 -> 0) for `ser`; "
             "for `de`/`txt` the model's line when de_ok holds (same structure after collapsing duplicates, every number the same "
-            "64-bit integer or the same double bit pattern), otherwise WANT; followed by the classes K1..K5 the input is in. "
+            "64-bit integer or the same double bit pattern), otherwise WANT (for `txt` nothing is demanded when some number is "
+            "beyond the doubles: the front end refuses the text); followed by the classes K3, K4 the input is in. "
             "Non-trivial: the value contains a number or a non-empty container. distinct = distinct case lines.",
     "trusted": SERDE_TRUST,
     "assumptions": [
-        "numbers are valid JSON numbers (wf_nums; every parsed or constructed NumberBuf is)",
+        "numbers are valid JSON numbers (wf_nums; every parsed or constructed NumberBuf is) - needed for serialisation only",
         "deserialisation of a duplicate-carrying Value collapses duplicates exactly as serialisation does (first position, last value); "
         "the property text is silent on this and the statement is read as allowing it",
-        "hypotheses of C17_de / C17_de_text on lexical and serde_json (exact to 19 digits; writer round-trips; serde_json exact for "
-        "significands < 2^53 and |exponent| <= 22; -0.0 printed as -0)",
+        "the text route is checked with serde_json's float_roundtrip feature on, i.e. with a correctly rounded front end; what the "
+        "default serde_json parser does to a float before json-syntax sees it is not json-syntax's behaviour",
+        "hypotheses of C17_de / C17_de_text on lexical's writer: the printed spelling reads back to the same double; -0.0 is printed -0",
     ],
 }
 
@@ -370,6 +385,7 @@ PROPS["C18"] = {
     "nshards": {"quick": 16, "thorough": 16},
     "nontrivial": serde_nontrivial,
     "known": _known(c18_classify),
+    "differs": serde_differs,
     "spec_matches": _SpecMatch(c18_classify),
     "rule": "`fs`: serde_json value j -> Value::from_serde_json -> into_serde_json, observable the intermediate json-syntax value and the "
             "returned serde_json value (numbers with representation tag: u<decimal> PosInt, i<decimal> NegInt, d<bits> Float); j over "
@@ -381,15 +397,13 @@ PROPS["C18"] = {
             "token/duplicate/key-order values and random nested values; every call under catch_unwind.  Spec column: for `fs` the "
             "same j back; for `is`, inside the stated domain (no duplicate keys, numbers 64-bit integers or finite doubles) the "
             "model's line when detour_ok holds (equal to v with every object's entries sorted by key, numbers the same integer / "
-            "double), outside it only NOPANIC; followed by the classes K3/K5/K6.  Non-trivial: a number or a non-empty container. "
+            "double), outside it only the absence of a panic.  Non-trivial: a number or a non-empty container. "
             "distinct = distinct case lines.",
     "trusted": SERDE_TRUST,
     "assumptions": [
-        "serde_json built without preserve_order / arbitrary_precision / float_roundtrip (the harness's and json-syntax's default): "
-        "Map = BTreeMap, numbers are u64 / i64 / f64",
-        "hypotheses of C18_there_and_back / C18_back_and_there on ryu and serde_json's parser (ryu output is a valid non-integer "
-        "spelling that reads back to the double; the parser is exact for significands < 2^53 and |exponent| <= 22); of C18_no_panic "
-        "(when serde_json refuses a number whose nearest double is finite the lossy parser still answers a finite double)",
+        "serde_json built without preserve_order / arbitrary_precision: Map = BTreeMap, numbers are u64 / i64 / f64",
+        "hypothesis of C18_there_and_back / C18_back_and_there on ryu: its output is a valid non-integer spelling that reads back "
+        "(correctly rounded) to the double",
     ],
 }
 
@@ -655,30 +669,30 @@ PROPS["C08"]["xcheck"] = "c08"
 PROPS["C05"]["xcheck"] = "c05"
 PROPS["C07"]["xcheck"] = "c07"
 
-_m("C17", "Proved for every value whose numbers are valid JSON numbers: outside K1 (integer syntax that is not i64/u64, incl. every "
-          "exponent-without-fraction spelling) and K4 (an object whose FIRST key is serde_json's private number token) to_value(&v) "
-          "returns exactly v with -0 respelt 0 when no object has duplicate keys, and otherwise each key at its first position with "
-          "its last value (= folding Object::insert over the entries, proved equal to the first-position/last-value specification); "
-          "outside K2 (> 19 significant digits), K3 (nearest double infinite) and K4 from_value::<Value>(v) returns a value of the same "
-          "structure (duplicates collapsed the same way) in which every number denotes the same 64-bit integer or the same double; the "
-          "same through serde_json's streaming deserializer outside K3, K4, K5 (spellings outside serde_json's exact float range). "
-          "Each class is shown to be a genuine deviation by a witness (K1: 1e5, 18446744073709551616 refused; K2: a 27-digit decimal one "
-          "ulp low; K3: 1e400 -> null; K4: {token: \"12\"} -> 12; K5: 2.4703282292062328e-324 -> 0) and carried as a known finding.",
-   "Modelled, not verified: serde's visitor/SerializeMap protocol, lexical's parser/writer, serde_json's number parser (arguments of "
-   "the model with explicit hypotheses, re-validated on every explored case through recorded dependency answers). Theorems are "
-   "closed under the global context (the Flocq axioms are allowed but not used).",
+_m("C17", "Proved for every value: outside K4 (an object whose FIRST key is serde_json's private number token), and with numbers "
+          "that are valid JSON numbers, to_value(&v) returns exactly v with -0 respelt 0 when no object has duplicate keys, and "
+          "otherwise each key at its first position with its last value (= folding Object::insert over the entries, proved equal "
+          "to the first-position/last-value specification) - for EVERY number spelling, including integer syntax outside 64 bits "
+          "and exponents without fraction; outside K3 (a non-integer number whose nearest double is infinite) and K4 "
+          "from_value::<Value>(v) returns a value of the same structure (duplicates collapsed the same way) in which every number "
+          "denotes the same 64-bit integer or the same double, whatever the number of digits; the same through serde_json's "
+          "streaming deserializer (correctly rounded front end). The two remaining classes are shown to be genuine deviations by "
+          "witnesses (K3: 1e400 -> null; K4: {token: \"12\"} -> 12) and carried as known findings. Non-vacuity instances are "
+          "evaluated in Props/C17.v.",
+   "Modelled, not verified: serde's visitor/SerializeMap protocol, lexical's float writer (argument of the model with an explicit "
+   "round-trip hypothesis, re-validated on every explored case through recorded dependency answers), correct rounding of "
+   "str::parse::<f64> and of serde_json's float_roundtrip parser (modelled by the Flocq-based reference). Theorems are closed "
+   "under the global context (the Flocq axioms are allowed but not used).",
    "Coq proof (nested induction on values; fold of insert = first-position/last-value by an accumulator invariant; decimal "
    "round-trips through the standard library's Decimal) + correspondence over number spelling classes x three routes")
 _m("C18", "Proved: for every well-formed serde_json value (integer ranges, finite floats, keys strictly sorted as BTreeMap guarantees) "
-          "outside K6 (a float whose shortest spelling is outside serde_json's exact parsing range) into_serde_json(from_serde_json(j)) "
-          "= j; for every json-syntax value without duplicate keys whose numbers are 64-bit integers or finite doubles, outside K5, "
-          "from_serde_json(into_serde_json(v)) equals v with every object's entries sorted by key and every number denoting the same "
-          "integer or double; from_serde_json never reaches its panic site and into_serde_json reaches its own only inside K3 (a "
-          "non-integer number whose nearest double is infinite). Witnesses: 1e400 panics (K3); the double 0x1c5f367fcf16b755 comes back "
-          "one ulp high (K6) because json-number re-parses the printed float with serde_json's default (non-round-tripping) parser. "
-          "Both are carried as known findings.",
-   "Modelled, not verified: ryu printing, serde_json's number parser, lexical's lossy parser, BTreeMap (arguments / hypotheses as for "
-   "C17). Theorems are closed under the global context.",
+          "into_serde_json(from_serde_json(j)) = j; for every json-syntax value without duplicate keys whose numbers are 64-bit "
+          "integers or finite doubles, from_serde_json(into_serde_json(v)) equals v with every object's entries sorted by key (a "
+          "permutation at every depth, the relation of C15) and every number denoting the same integer or double; "
+          "into_serde_json returns a value for EVERY input (a magnitude beyond the doubles becomes null) and from_serde_json never "
+          "reaches its panic site. Non-vacuity instances are evaluated in Props/C18.v.",
+   "Modelled, not verified: ryu printing (argument with an explicit round-trip hypothesis, re-validated on every case), correct "
+   "rounding of str::parse::<f64> (modelled by the Flocq-based reference), BTreeMap. Theorems are closed under the global context.",
    "Coq proof (nested induction on both value types; BTreeMap insertion of a sorted run is append; simulation between insertion "
    "sort by key and BTreeMap insertion) + correspondence over all three number representations, random bit patterns and the C17 "
    "spelling classes, every call under catch_unwind")
